@@ -60,9 +60,9 @@ private theorem dts_cons {above dts : List Str} {t : Str}
     (hd : ∀ d ∈ dts, d ∈ above ∨ d ∈ rpcReplyTags) : ∀ d ∈ dts, d ∈ t :: above ∨ d ∈ rpcReplyTags :=
   fun d hm => (hd d hm).imp (List.mem_cons_of_mem _) id
 
-/-- While ignoring (inside a dropped element `ig`), a whole subtree goes by without any effect:
-    its tags differ from `ig`, from the default tags and from the open filter nodes' tags, because all
-    of those are ancestors' tags. -/
+/- While ignoring (inside a dropped element `ig`), a whole subtree goes by without any effect:
+   its tags differ from `ig`, from the default tags and from the open filter nodes' tags, because all
+   of those are ancestors' tags. -/
 mutual
   private theorem ignore_events (lk : Lookup) (r : Option FT) (w v fl : Bool) (ig : Str) :
       ∀ (y : RT) (above : List Str) (g : FT) (rest : List FT) (dts : List Str) (out : Str),
@@ -74,14 +74,14 @@ mutual
       obtain ⟨hta, htr⟩ := goodRT_leaf hg
       have hgt : g.tag ≠ t := fun e => hta (e ▸ hs g (List.mem_cons_self ..))
       have hit : ig ≠ t := fun e => hta (e ▸ hi)
-      rw [events, feed_start_ok _ _ _ _ _ _ (start_ignoring lk _ t a htr rfl), feed_chars,
+      rw [events, List.cons_append, feed_start_ok _ _ _ _ _ _ (start_ignoring lk _ t a htr rfl), feed_chars,
         characters_none, feed_stop, end_inner _ _ _ _ _ _ _ _ _ _ _ hit (not_default hd hta htr) hgt]
       rfl
     | .node t a ch, above, g, rest, dts, out, hg, hi, hs, hd => by
       obtain ⟨hta, htr, hch⟩ := goodRT_node hg
       have hgt : g.tag ≠ t := fun e => hta (e ▸ hs g (List.mem_cons_self ..))
       have hit : ig ≠ t := fun e => hta (e ▸ hi)
-      rw [events, feed_start_ok _ _ _ _ _ _ (start_ignoring lk _ t a htr rfl),
+      rw [events, List.cons_append, feed_start_ok _ _ _ _ _ _ (start_ignoring lk _ t a htr rfl),
         feed_append_ok _ _ _ _ _
           (ignore_eventsList lk r w v fl ig ch (t :: above) g rest dts out hch
             (List.mem_cons_of_mem _ hi) (stack_cons hs) (dts_cons hd)),
@@ -101,9 +101,9 @@ mutual
       exact ignore_eventsList lk r w v fl ig ys above g rest dts out hys hi hs hd
 end
 
-/-- The core invariant: a child `x` of a kept element whose filter node is `g`. If `g` has a child
-    for `x.tag` the element is copied (recursively projected), the filter node being pushed at its
-    start tag and popped at its end tag; otherwise it is dropped without a trace. -/
+/- The core invariant: a child `x` of a kept element whose filter node is `g`. If `g` has a child
+   for `x.tag` the element is copied (recursively projected), the filter node being pushed at its
+   start tag and popped at its end tag; otherwise it is dropped without a trace. -/
 mutual
   private theorem child_events (lk : Lookup) (r : FT) (w fl : Bool) :
       ∀ (x : RT) (above : List Str) (g : FT) (rest : List FT) (dts : List Str) (ct : Option Str)
@@ -120,11 +120,11 @@ mutual
       simp only [RT.tag]
       cases hf : g.find t with
       | none =>
-        rw [events, feed_start_ok _ _ _ _ _ _ (start_dropped lk r g rest w dts ct out fl t a htr hgt hf),
+        rw [events, List.cons_append, feed_start_ok _ _ _ _ _ _ (start_dropped lk r g rest w dts ct out fl t a htr hgt hf),
           feed_chars, characters_none, feed_stop, end_dropped _ _ _ _ _ _ _ _ _ _ htd hgt]
         simp only [List.append_nil]; rfl
       | some n =>
-        rw [events, feed_start_ok _ _ _ _ _ _ (start_kept lk r g n rest w dts ct out fl t a htr hgt hf),
+        rw [events, List.cons_append, feed_start_ok _ _ _ _ _ _ (start_kept lk r g n rest w dts ct out fl t a htr hgt hf),
           feed_chars, characters_some, feed_stop, end_kept _ _ _ _ _ _ _ _ _ _ htd (find_tag hf)]
         simp only [render, List.append_assoc]; rfl
     | .node t a ch, above, g, rest, dts, ct, out, hg, hs, hd => by
@@ -134,7 +134,7 @@ mutual
       simp only [RT.tag]
       cases hf : g.find t with
       | none =>
-        rw [events, feed_start_ok _ _ _ _ _ _ (start_dropped lk r g rest w dts ct out fl t a htr hgt hf),
+        rw [events, List.cons_append, feed_start_ok _ _ _ _ _ _ (start_dropped lk r g rest w dts ct out fl t a htr hgt hf),
           feed_append_ok _ _ _ _ _
             (ignore_eventsList lk (some r) w false fl t ch (t :: above) g rest dts out hch
               (List.mem_cons_self ..) (stack_cons hs) (dts_cons hd)),
@@ -148,7 +148,7 @@ mutual
           · exact List.mem_cons_of_mem _ (hs s hm')
         obtain ⟨ct', hrec⟩ := child_eventsList lk r w fl ch (t :: above) n (g :: rest) dts (some t)
           (out ++ openTag t a) hch hs' (dts_cons hd)
-        rw [events, feed_start_ok _ _ _ _ _ _ (start_kept lk r g n rest w dts ct out fl t a htr hgt hf),
+        rw [events, List.cons_append, feed_start_ok _ _ _ _ _ _ (start_kept lk r g n rest w dts ct out fl t a htr hgt hf),
           feed_append_ok _ _ _ _ _ hrec, feed_stop,
           end_kept _ _ _ _ _ _ _ _ _ _ htd (find_tag hf)]
         simp only [render, List.append_assoc]; rfl
@@ -166,8 +166,9 @@ mutual
         (out ++ (match g.find x.tag with | some n => render n x | none => [])) hxs hs hd
       refine ⟨ct', ?_⟩
       rw [eventsList, feed_append_ok _ _ _ _ _
-        (child_events lk r w fl x above g rest dts ct out hx hs hd), hrec]
-      simp only [renderList, List.append_assoc]
+        (child_events lk r w fl x above g rest dts ct out hx hs hd), hrec, renderList,
+        List.append_assoc]
+      rfl
 end
 
 private theorem rr_mem : "rpc-reply".toList ∈ rpcReplyTags := by decide
@@ -184,14 +185,19 @@ private theorem sax_project_of (f : FT) (attrs : List (Str × Str)) (top : RT)
     simp only [RT.tag] at htag
     subst htag
     have hne : f.tag ≠ "rpc-reply".toList := fun e => htr (e ▸ rr_mem)
-    refine ⟨_, ?_, ?_, rfl, rfl⟩
-    · rw [replyEvents, feed_start_ok _ _ _ _ _ _ (start_rpcreply f _ attrs rr_mem hne hrr), events,
-        List.cons_append, List.append_assoc,
+    have hfeed : feed (.filter f) {} (replyEvents attrs (.leaf f.tag a p)) =
+        .ok ⟨some f, [f], false, none, ["rpc-reply".toList] ++ [f.tag], none, false,
+          openTag "rpc-reply".toList attrs ++ openTag f.tag a ++ escape p.flatten ++ closeTag f.tag ++
+            closeTag "rpc-reply".toList, false⟩ := by
+      have hev : replyEvents attrs (.leaf f.tag a p) = .start "rpc-reply".toList attrs ::
+          .start f.tag a :: (p.map .chars ++ [.stop f.tag, .stop "rpc-reply".toList]) := by
+        simp only [replyEvents, events, List.cons_append, List.append_assoc, List.nil_append]
+      rw [hev, feed_start_ok _ _ _ _ _ _ (start_rpcreply f _ attrs rr_mem hne hrr),
         feed_start_ok _ _ _ _ _ _ (start_top _ f _ _ _ _ a htr), feed_chars, characters_some,
-        List.cons_append, List.nil_append, feed_stop,
+        feed_stop,
         end_default _ _ _ _ _ _ _ _ _ (by simp), feed_stop, end_default _ _ _ _ _ _ _ _ _ (by simp)]
       rfl
-    · simp only [expectedOut, render, List.append_assoc]
+    exact ⟨_, hfeed, by simp only [expectedOut, render, List.append_assoc], rfl, rfl⟩
   | node t a ch =>
     obtain ⟨-, htr, hch⟩ := goodRT_node hgood
     simp only [RT.tag] at htag
@@ -206,15 +212,19 @@ private theorem sax_project_of (f : FT) (attrs : List (Str × Str)) (top : RT)
         rcases List.mem_append.1 hm with h1 | h1
         · rw [List.mem_singleton.1 h1]; exact Or.inr rr_mem
         · rw [List.mem_singleton.1 h1]; exact Or.inl (List.mem_cons_self ..))
-    refine ⟨_, ?_, ?_, rfl, rfl⟩
-    · rw [replyEvents, feed_start_ok _ _ _ _ _ _ (start_rpcreply f _ attrs rr_mem hne hrr), events,
-        List.cons_append, List.append_assoc,
+    have hfeed : feed (.filter f) {} (replyEvents attrs (.node f.tag a ch)) =
+        .ok ⟨some f, [f], false, none, ["rpc-reply".toList] ++ [f.tag], none, false,
+          openTag "rpc-reply".toList attrs ++ openTag f.tag a ++ renderList f ch ++ closeTag f.tag ++
+            closeTag "rpc-reply".toList, false⟩ := by
+      have hev : replyEvents attrs (.node f.tag a ch) = .start "rpc-reply".toList attrs ::
+          .start f.tag a :: (eventsList ch ++ [.stop f.tag, .stop "rpc-reply".toList]) := by
+        simp only [replyEvents, events, List.cons_append, List.append_assoc, List.nil_append]
+      rw [hev, feed_start_ok _ _ _ _ _ _ (start_rpcreply f _ attrs rr_mem hne hrr),
         feed_start_ok _ _ _ _ _ _ (start_top _ f _ _ _ _ a htr),
-        feed_append_ok _ _ _ _ _ hrec,
-        List.cons_append, List.nil_append, feed_stop,
+        feed_append_ok _ _ _ _ _ hrec, feed_stop,
         end_default _ _ _ _ _ _ _ _ _ (by simp), feed_stop, end_default _ _ _ _ _ _ _ _ _ (by simp)]
       rfl
-    · simp only [expectedOut, render, List.append_assoc]
+    exact ⟨_, hfeed, by simp only [expectedOut, render, List.append_assoc], rfl, rfl⟩
 
 /-! ### The properties -/
 
@@ -250,23 +260,17 @@ theorem sax_project_text_pieces (f : FT) (attrs a : List (Str × Str)) (t : Str)
     (hp : p.flatten = q.flatten) (hg : Good f (.leaf t a p)) :
     ∃ h1 h2, feed (.filter f) {} (replyEvents attrs (.leaf t a p)) = .ok h1 ∧
              feed (.filter f) {} (replyEvents attrs (.leaf t a q)) = .ok h2 ∧ h1.out = h2.out := by
-  -- the two event streams drive the handler into the very same state (no premise needed)
-  have key : ∀ r : List Str, feed (.filter f) {} (replyEvents attrs (.leaf t a r)) =
-      match startElement (.filter f) {} "rpc-reply".toList attrs with
-      | .ok h0 => (match startElement (.filter f) h0 t a with
-        | .ok h1 => feed (.filter f) (characters h1 r.flatten) [.stop t, .stop "rpc-reply".toList]
-        | x => x)
-      | x => x := by
+  -- the two event streams drive the handler into the very same state (the premise is not needed)
+  have _ := hg
+  have key : ∀ r : List Str, replyEvents attrs (.leaf t a r) =
+      [.start "rpc-reply".toList attrs, .start t a] ++
+        (r.map .chars ++ [.stop t, .stop "rpc-reply".toList]) := by
     intro r
-    simp only [replyEvents, events, List.cons_append, List.append_assoc, List.nil_append, feed]
-    split
-    · split
-      · rw [feed_chars]
-      · rfl
-    · rfl
+    simp only [replyEvents, events, List.cons_append, List.append_assoc, List.nil_append]
   obtain ⟨h1, e1⟩ := feed_filter_ok f (replyEvents attrs (.leaf t a p)) {}
   refine ⟨h1, h1, e1, ?_, rfl⟩
-  rw [← e1, key, key, hp]
+  rw [← e1, key, key]
+  exact feed_pieces_irrel _ _ _ _ _ _ hp.symm
 
 /-! Non-vacuity -/
 def s (x : String) : Str := x.toList
